@@ -6,19 +6,18 @@ Statement of the property for the model: for every input string and every choice
 `.error .valueError` — never another class, never `timeout` (= the loops terminate).
 
 History: on the snapshot this was false in seven ways (KeyError, TypeError, AttributeError ×3 sites, IndexError ×2
-sites, OverflowError); all were repaired in /repo (e804336, 979e8ea, 74e3eee, 6c551bc, 007bfee, afb5815).  The model
-follows the repaired code and branches on each guard as extracted from the source, so a removed guard breaks
-`om_parser_total_partial` (and the `regress_*` theorems).  Two classes remain at HEAD 6c551bc (`witness_*`): TypeError
-in `_check_histogram` on a native-histogram sample named `…_gsum`, OverflowError in `Timestamp.__float__`.
+sites, OverflowError), and two of the repairs opened two more (TypeError in `_check_histogram`, OverflowError in
+`Timestamp.__float__`); all nine are repaired in /repo (e804336, 979e8ea, 74e3eee, 6c551bc, 007bfee, afb5815, 3aca2ff,
+2c736ec, a186a64).  The model follows the repaired code and branches on each guard as extracted from the source, so a
+removed guard breaks `om_parser_total` and the corresponding `regress_*` theorem.
 
 What is proved, for every input and every parameter choice:
 * `parse_timestamp_total`, `parse_remaining_text_total`, `parse_sample_total`, `parse_labels_om_total`
   (incl. termination of the label loop), `nh_detector_total`, `unquote_unescape_total`: only ValueError escapes from
   the per-line functions; the `parts[1]` IndexError of `_parse_timestamp` is unreachable;
 * `group_for_sample_guarded`: the three `del d[...]` KeyError sites are guarded by the label checks of the main loop;
-* `om_parser_total_partial`: the whole parser (tokenisation of every line incl. `_parse_nh_sample` / `_parse_nh_struct`,
-  the line/family fold, `build_metric`, `_check_histogram`) under `OutsideFindings`, which excludes exactly the two
-  remaining classes.
+* `om_parser_total`: the whole parser (tokenisation of every line incl. `_parse_nh_sample` / `_parse_nh_struct`, the
+  line/family fold, `build_metric`, `_check_histogram`), with no hypothesis on the input.
 -/
 import PromVerif.Lemmas.OMTotal
 import PromVerif.Lemmas.OMFold4
@@ -113,62 +112,40 @@ theorem f8_repaired_sample_name : errOf (parseDoc "{\" \"} 1\n# EOF\n") = some .
 /-- `_unquote_unescape` is total since the repair -/
 theorem unquote_unescape_total (t : Str) : ∀ e, unquoteUnescape t = .error e → e = .valueError := unquoteUnescape_safe' t
 
-/-! ## the two classes that still escape (HEAD 6c551bc) -/
+/-- 2c736ec: `_check_histogram` skips native-histogram samples — one named `<family>_gsum` is accepted (was TypeError
+from `None < 0`, reachable once 74e3eee let such samples into the list) -/
+theorem regress_nh_gsum :
+    isOkDoc "# TYPE a histogram\na_gsum {count:1,sum:1,schema:1,zero_threshold:1,zero_count:1}\n# EOF\n" = true := by decide
 
-/-- `_check_histogram` reads `s.value < 0` of a native-histogram sample whose name continues the family name with
-`_gsum` (the samples 74e3eee lets into the list): TypeError -/
-theorem witness_typeError_check_histogram :
-    errOf (parseDoc "# TYPE a histogram\na_gsum {count:1,sum:1,schema:1,zero_threshold:1,zero_count:1}\n# EOF\n") = some .typeError := by
-  decide
+/-- a186a64: a `Timestamp` whose seconds do not fit a float is compared by its seconds (was OverflowError in
+`Timestamp.__float__`, introduced by 007bfee; the toy limit is 10^6) -/
+theorem regress_huge_timestamp : errOf (parseDoc "a 1 1000000\na 1 2e0\n# EOF\n") = some .valueError := by decide
 
-/-- `Timestamp.__float__` of a huge `sec` in the comparison 007bfee introduced: OverflowError (toy limit 10^6) -/
-theorem witness_overflowError_timestamp : errOf (parseDoc "a 1 1000000\na 1 2e0\n# EOF\n") = some .overflowError := by decide
+theorem regress_huge_timestamp_forward : isOkDoc "a 1 2e0\na 1 1000000\n# EOF\n" = true := by decide
 
 /-! ## the whole parser -/
 
-/-- the line, read as a native histogram, gives a sample whose name ends in `_gsum` -/
-def nhGsum (P : Params) (line : Str) : Bool :=
-  match parseNhLine P line with
-  | .ok (some s) => endsWith sGsum s.name
-  | _ => false
-
-/-- the line, read as a plain sample, has no `Timestamp` that fails to convert to float -/
-def tsConverts (P : Params) (line : Str) : Bool :=
-  match parseSample P line with
-  | .error _ => true
-  | .ok s =>
-    match s.ts with
-    | some (.stamp a b) => (P.tsFloat a b).isSome
-    | _ => true
-
-/-- a document outside the two remaining finding classes -/
-def OutsideFindings (P : Params) (text : Str) : Bool :=
-  (docLines text).all (fun line => !nhGsum P line && tsConverts P line)
-
-/-
-Full statement (false at HEAD 6c551bc, see the two witnesses):
-  ∀ P text, NaNLiteral P → DigitsNotSpace P → omParse P text = .ok _ ∨ omParse P text = .error .valueError
--/
 /-- **the OpenMetrics parser is total**: for every input string and every choice of the number parameters and regex
-classes (with the two interpreter facts `float("NaN")` is a NaN and no `\d` character is whitespace), the model
-returns families or ValueError — no other class, no `timeout`.  Native-histogram-shaped lines, mixed timestamp forms
-and huge integer values are covered (they were hypotheses before the repairs).  `_partial`: `OutsideFindings` excludes
-exactly the two classes of the witnesses above; nothing else is assumed. -/
-theorem om_parser_total_partial (P : Params) (hnan : NaNLiteral P) (hd : DigitsNotSpace P) (text : Str)
-    (h : OutsideFindings P text = true) : ∀ e, omParse P text = .error e → e = .valueError := by
-  unfold OutsideFindings at h
-  rw [List.all_eq_true] at h
-  apply omParse_safe P hnan hd text
-  · intro line hl s hs
-    have := (h line hl)
-    simp only [Bool.and_eq_true, Bool.not_eq_true', nhGsum, hs] at this
-    exact this.1
-  · intro line hl s hs a b hts
-    have := (h line hl)
-    simp only [Bool.and_eq_true, tsConverts, hs, hts] at this
-    exact this.2
+classes — `int()`, `float()`, the comparisons, `math.isnan/isinf`, `float.is_integer`, `Timestamp.__float__`, `\w \s
+\d` — the model of `list(text_string_to_metric_families(text))` returns families or raises ValueError: no other class,
+and no `timeout` (the label loop, the scanners, the regex matchers and the fold terminate within their fuel).
+The two hypotheses are interpreter facts about the parameters, not restrictions of the input: `float("NaN")` is a NaN
+(the `le` test relies on it), and no `\d` character is whitespace (`_compose_deltas` relies on it;
+`regex_classes_exact` checks it on the interpreter's tables).  The proof uses every guard extracted from the source
+(`Generated.OMParse.nhStructCatchesKeyError`, `nhSkipsChecks`, `nhSuffixRecheck`, `tsCoerce`, `tsOverflowFallback`,
+`histSkipsNh`, `nanGuardsFloat`, and the F8 repair in the shared `unquoteUnescape`): removing one breaks it. -/
+theorem om_parser_total (P : Params) (hnan : NaNLiteral P) (hd : DigitsNotSpace P) (text : Str) :
+    ∀ e, omParse P text = .error e → e = .valueError :=
+  omParse_safe P hnan hd text
 
-/-- the interpreter facts hold for the toy instance; the hypothesis is satisfiable and fails on the witnesses -/
+/-- termination: the fuel of the model's loops always suffices -/
+theorem om_parser_no_timeout (P : Params) (hnan : NaNLiteral P) (hd : DigitsNotSpace P) (text : Str) :
+    omParse P text ≠ .error .timeout := by
+  intro h
+  have := om_parser_total P hnan hd text _ h
+  cases this
+
+/-- the two interpreter facts hold for the toy instance (non-vacuity) -/
 example : NaNLiteral toyP := by
   intro f h
   have : toyP.pyFloat sNaN = some 0 := by decide
@@ -185,10 +162,5 @@ example : DigitsNotSpace toyP := by
   simp only [isPySpace]
   simp
   omega
-
-example : OutsideFindings toyP cs!"# TYPE a histogram\na_bucket{le=\"1\"} 1 5\na_bucket{le=\"+Inf\"} 2 5\na {count:1,sum:1,schema:1,zero_threshold:1,zero_count:1}\n# TYPE b counter\nb_total 3 # {t=\"x\"} 1 7\n# EOF\n" = true := by decide
-example : OutsideFindings toyP cs!"a 1 1.5\na 1 2e0\n# EOF\n" = true := by decide
-example : OutsideFindings toyP cs!"# TYPE a histogram\na_gsum {count:1,sum:1,schema:1,zero_threshold:1,zero_count:1}\n# EOF\n" = false := by decide
-example : OutsideFindings toyP cs!"a 1 1000000\na 1 2e0\n# EOF\n" = false := by decide
 
 end PromVerif.Props.C14OM
